@@ -116,6 +116,8 @@ def crash_prop(cls):
 def classify_death(rc, stderr_text):
     """-> (kind, detail). kind in asan|miri|signal|exit"""
     t = stderr_text or ""
+    if "LeakSanitizer: detected memory leaks" in t or ("SUMMARY: AddressSanitizer" in t and "byte(s) leaked in" in t):
+        return "lsan", " ".join(l.strip() for l in t.splitlines() if "SUMMARY" in l or "leak of" in l)[:300]
     if "AddressSanitizer" in t:
         kind = "asan"
         first = ""
@@ -131,7 +133,10 @@ def classify_death(rc, stderr_text):
         return kind, (first + " | " + frame)[:400]
     if "LeakSanitizer" in t:
         return "lsan", "LeakSanitizer: " + " ".join(l.strip() for l in t.splitlines() if "SUMMARY" in l)[:300]
-    if "Undefined Behavior" in t or "error: memory leaked" in t or "the program aborted execution" in t:
+    if "error: memory leaked" in t and "Undefined Behavior" not in t:
+        det = " ".join(l.strip() for l in t.splitlines() if "memory leaked" in l or "alloc" in l and "Rust heap" in l)[:300]
+        return "mirileak", det
+    if "Undefined Behavior" in t or "the program aborted execution" in t:
         det = ""
         for line in t.splitlines():
             if line.startswith("error"):
@@ -280,10 +285,22 @@ def run_shard(job, shard, nshards, prop, seed, tag):
         except Exception:
             idx = None
         try:
-            etxt = open(errf, errors="replace").read()[-20000:]
+            etxt = open(errf, errors="replace").read()
+            etxt = etxt[:6000] + ("\n...\n" + etxt[-14000:] if len(etxt) > 20000 else etxt[6000:])
         except Exception:
             etxt = ""
         kind, detail = classify_death(rc, etxt)
+        if kind in ("lsan", "mirileak"):
+            # leak report at process exit: the whole batch ran; it is a memory-conservation finding for
+            # the batch, not a crash of the last history
+            res.crashes -= 1
+            res.violations.append({
+                "kind": "violation", "prop": "C04", "rule": "mem", "hard": False,
+                "msg": "%s reported leaked memory at exit of a batch of histories that all ended with everything destroyed: %s" % ("LeakSanitizer" if kind == "lsan" else "Miri's leak checker", detail),
+                "idx": frm, "coord": "%s batch from=%d stride=%d offset=%d (engine %s)" % (job["label"], frm, nshards, off, eng), "class": job.get("class", "WF"),
+                "engine": eng, "job_args": job["args"] + ["--stride", str(nshards), "--offset", str(off)], "known_sig": "", "ops": "", "log": etxt.splitlines()[-40:], "batch": True,
+            })
+            break
         if idx is None:
             res.inconclusive.append({"why": "worker died before its first history (%s: %s)" % (kind, detail)})
             res.exhausted = False
